@@ -5,6 +5,7 @@ import Heph.Model.GenVar
 import Heph.Model.GenFuncRef
 import Heph.Model.GenNew
 import Heph.Model.GenMatch
+import Heph.Model.GenSig
 /-! ops of the C01 family.
   `check.wt` {program export + "bt": {"any","void","boolean","char","string","integer": index into tt,
   "builtins": [indices]}} → {"r": "ok" | {"path": [...], "reason": tag, "detail": text},
@@ -141,6 +142,37 @@ def handle : Handler := fun op j =>
         let out := ((c.getObjValD "out").getStr?).toOption
         pure (Json.mkObj [("ok", Json.bool (r.map (·.name) == out)),
           ("model", match r with | some a => Json.str a.name | none => Json.null)]))
+  | "check.readfits" => some (do
+      -- {tt, "bt", calls: {"attr": {"t"}, "etype", "m"}} → the type READ from the attribute through the receiver map
+      -- (the checker's `readType`: a projection yields its upper capture bound, rule 2) is assignable to the
+      -- expected type according to the specification-side decider
+      let tbl ← parseTable j
+      let lt ← parseLangTypes tbl j
+      batch j fun c => do
+        let a ← c.getObjVal? "attr"
+        pure (Json.bool (asgB lt (readType lt (← tyAt tbl a "t") (← parseTMap tbl c "m")) (← tyAt tbl c "etype"))))
+  | "check.overridesig" => some (do
+      -- calls: {"params": [idx], "ret", "m", "tpnames": [str], "renaming": map, "out": {"params": [idx], "ret"}}
+      --  → {"ok": the signature handed to gen_func_decl is the model's, "arity": same number of parameters}
+      let tbl ← parseTable j
+      batch j fun c => do
+        let names ← (← getArr c "tpnames").toList.mapM fun x => x.getStr?
+        let (ps, r) := overrideSig (← parseTMap tbl c "m") names (← parseTMap tbl c "renaming")
+          (← tyListAt tbl c "params") (← tyAt tbl c "ret")
+        let o ← c.getObjVal? "out"
+        let ops ← tyListAt tbl o "params"
+        pure (Json.mkObj [("ok", Json.bool (structEqL ps ops && structEq r (← tyAt tbl o "ret"))),
+          ("arity", Json.bool (ps.length == ops.length))]))
+  | "check.callargs" => some (do
+      -- calls: {"params": [{"t","vararg"}], "m", "counts": [nat], "args": [idx]} → {"ok", "n"}
+      let tbl ← parseTable j
+      batch j fun c => do
+        let ps ← (← getArr c "params").toList.mapM fun x => do
+          pure ({ ty := ← tyAt tbl x "t", vararg := ← getBool x "vararg" } : CallParam)
+        let r := callArgsExpected (← parseTMap tbl c "m") ps (← getNatList c "counts")
+        let args ← tyListAt tbl c "args"
+        pure (Json.mkObj [("ok", Json.bool (match r with | some l => structEqL l args | none => false)),
+          ("n", match r with | some l => Json.num (JsonNumber.fromNat l.length) | none => Json.null)]))
   | "check.subclass" => some (do
       -- calls: {"etype", "ename", "sub", "classes": [{"name","regular","parameterized","t"}], "out": name | null}
       --  → {"ok": the outcome refines `subclassCandidates`, "cands"}
